@@ -41,7 +41,7 @@ def names : List String := ["MO", "TU", "WE", "TH", "FR", "SA", "SU"]
 
 /-! ## hand model -/
 
-/-- `self(n)`: the value, and whether it is `self` itself (the same object) rather than a new one -/
+/-- `self(n)` for an object of the base class: the value, and whether it is `self` itself (the same object) rather than a new one -/
 def call (self : Wd) (n : Option Int) : Wd × Bool := ((self.1, n), decide (n = self.2))
 
 /-- `self == other` -/
@@ -67,5 +67,10 @@ def repr (self : Wd) : Py.R String :=
 /-- `rrule.weekday(wkday, n)`: n == 0 is rejected -/
 def initRR (wkday : Int) (n : Option Int) : Py.R Wd :=
   if n = some 0 then .error .ValueError else .ok (wkday, n)
+
+/-- `self(n)` for an object of class `rrule.weekday` (`self.__class__` is the subclass): a NEW object with n == 0 is rejected,
+    the object itself is returned for its own n (even 0 could not occur: no such object exists) -/
+def callRR (self : Wd) (n : Option Int) : Py.R (Wd × Bool) :=
+  if n = self.2 then .ok (self, true) else if n = some 0 then .error .ValueError else .ok ((self.1, n), false)
 
 end WdPy
